@@ -823,6 +823,109 @@ def stratum_enforcer_reload_keeps_function(chk):
     chk.extra["enforcer_reload_cases"] = n
 
 
+# ---- a reload that fails on an Enforcer with a matching function -----------------------------------
+FR_PATS = ["/book/:id", "/book/*", "/pen/:id", "/book/1", "/pen/1"]
+FR_CONC = ["/book/1", "/book/2", "/pen/1", "/pen/2", "alice"]
+FR_ROLES = ["book_group", "pen_group", "admin"]
+
+
+def failed_reload_execute(c):
+    """c: kept = pattern assignments (g2) in force, loaded from the adapter; queried_before = names asked about before the
+    reload; offered = the g2 lines of the source the reload reads (one of them may be too short for the role definition:
+    link building then fails after the lines before it were linked), fail_at = the adapter raises after that many rows.
+    Whatever the reload did - succeed, or raise and keep the old policy - afterwards every concrete name holds exactly the
+    roles that the assignments THE ENFORCER NOW REPORTS give it: SPEC = a fresh RoleManager with the same matching function
+    fed those assignments.  -> None or (what, details)"""
+    import casbin
+    from casbin.model import Model
+    from casbin.rbac import default_role_manager
+    from casbin.util import key_match2_func
+    from ..mgmt import RecAdapter
+    m = Model()
+    m.load_model_from_text(ERM_TEXT)
+    prow = [("p", ["u", r, "act_" + r]) for r in FR_ROLES]
+    ad = RecAdapter(prow + [("g2", list(l)) for l in c["kept"]])
+    e = casbin.Enforcer(m)
+    e.set_adapter(ad)
+    if not c.get("late"):
+        e.add_named_matching_func("g2", key_match2_func)
+    e.load_policy()
+    if c.get("late"):
+        e.add_named_matching_func("g2", key_match2_func)
+    for x, r in c["queried_before"]:
+        e.enforce("u", x, "act_" + r)
+    ad.rows = prow + [("g2", list(l)) for l in c["offered"]]
+    ad.fail_at = c.get("fail_at")
+    raised = None
+    try:
+        e.load_policy()
+    except Exception as exc:  # noqa
+        raised = type(exc).__name__
+    ad.fail_at = None
+    force = [list(l) for l in e.get_named_grouping_policy("g2")]
+    fresh = default_role_manager.RoleManager(10)
+    fresh.add_matching_func(key_match2_func)
+    try:
+        for l in force:
+            fresh.add_link(*l[:2])
+    except Exception:  # noqa
+        return None                                 # the policy in force itself is unusable (a too-short line was accepted)
+    qs = [(x, r) for x in FR_CONC for r in FR_ROLES]
+    got = [bool(e.enforce("u", x, "act_" + r)) for x, r in qs]
+    want = [bool(fresh.has_link(x, r)) for x, r in qs]
+    if got != want:
+        bad = [dict(name=x, role=r, enforcer=g, assignments_in_force_give=w) for (x, r), g, w in zip(qs, got, want) if g != w]
+        return ("after a reload that " + ("raised" if raised else "succeeded") + " a name holds / lacks a role against the pattern "
+                "assignments in force", dict(reload_raised=raised, assignments_in_force=force, differences=bad[:4]))
+    return None
+
+
+def stratum_enforcer_failed_reload(chk, rng, n, seed_cases=()):
+    cnt = 0
+    reported = 0
+    cases = list(seed_cases)
+    for _ in range(n):
+        def links(k):
+            out = []
+            for _k in range(k):
+                l = [rng.choice(FR_PATS), rng.choice(FR_ROLES)]
+                if l not in out:
+                    out.append(l)
+            return out
+        kept, offered = links(rng.randint(0, 4)), links(rng.randint(1, 5))
+        mode = rng.choice(["short-line", "short-line", "adapter-fails", "succeeds"])
+        c = dict(stratum="enforcer-failed-reload", kept=kept, offered=offered, late=rng.random() < 0.3, mode=mode,
+                 queried_before=[[rng.choice(FR_CONC), rng.choice(FR_ROLES)] for _k in range(rng.randint(0, 4))], fail_at=None)
+        if mode == "short-line":
+            offered.insert(rng.randint(0, len(offered)), [rng.choice(FR_PATS)])
+        elif mode == "adapter-fails":
+            c["fail_at"] = rng.randint(0, len(FR_ROLES) + len(offered))
+        cases.append(c)
+    for c in cases:
+        bad = failed_reload_execute(c)
+        cnt += 1
+        chk.count(("enforcer-failed-reload", repr(c["kept"]), repr(c["offered"]), c.get("fail_at"), c.get("late"), repr(c["queried_before"])))
+        if bad and reported < 2:
+            # shrink: drop assignments / earlier queries while the same complaint remains
+            changed = True
+            while changed:
+                changed = False
+                for key in ("kept", "offered", "queried_before"):
+                    for i in range(len(c[key]) - 1, -1, -1):
+                        if key == "offered" and len(c[key][i]) < 2:
+                            continue
+                        cand = dict(c, **{key: c[key][:i] + c[key][i + 1:]})
+                        try:
+                            b2 = failed_reload_execute(cand)
+                        except Exception:  # noqa
+                            b2 = None
+                        if b2 and b2[0] == bad[0]:
+                            c, bad, changed = cand, b2, True
+            reported += 1
+            chk.spec_fail(c, bad[1], "a fresh role manager with the same matching function and the assignments in force", bad[0])
+    chk.extra["enforcer_failed_reload_cases"] = chk.extra.get("enforcer_failed_reload_cases", 0) + cnt
+
+
 def run(chk, tier):
     rng = chk.rng
     thorough = tier == "thorough"
@@ -852,12 +955,17 @@ def run(chk, tier):
     stratum_concurrent(chk, lines=thorough)
     stratum_function_replaced(chk, rng, 3000 if thorough else 300)
     stratum_enforcer_reload_keeps_function(chk)
+    stratum_enforcer_failed_reload(chk, rng, 6000 if thorough else 600)
     chk.exhaustive = True
-    chk.extra["strata"] = state["strata"]
+    chk.extra["strata"] = dict(state["strata"], enforcer_failed_reload=chk.extra.get("enforcer_failed_reload_cases", 0))
     chk.extra["histories_per_manager"] = state["kinds"]
     chk.extra["histories_showing_the_listed_finding"] = state["f14"]
     chk.rule += ("; concurrent stratum: two threads issuing first queries about never-seen names on one RoleManager / "
-                 "DomainManager with matching functions, every one-preemption schedule at call (thorough: line) granularity")
+                 "DomainManager with matching functions, every one-preemption schedule at call (thorough: line) granularity"
+                 "; reload stratum: an Enforcer with key_match2 on g2 and 0-4 pattern assignments in force reloads from a source "
+                 "offering 1-5 other assignments - cleanly, with a too-short line at a random position (link building fails half-way), "
+                 "or with the adapter raising after k rows - names queried before or not; afterwards every (name, role) answer is "
+                 "compared with a fresh manager holding the assignments the enforcer reports")
     chk.extra["exhaustive_scope"] = (f"every sequence of <= {6 if thorough else 5} calls over 4 adds / their deletes / 3 queries "
                                      "(no add of an assignment in force, no delete of an absent one) for two pattern "
                                      "universes (mutually matching /book/:id, /book/*; overlapping /book/:id, /*/1) and for "
@@ -885,6 +993,14 @@ def replay(chk):
             print(f"VIOLATION property={chk.prop} replay={chk.replay_file}")
             sys.exit(1)
         print("replay passes: both queries answer as they do alone under this schedule")
+        sys.exit(0)
+    if c.get("stratum") == "enforcer-failed-reload":
+        bad = failed_reload_execute(c)
+        print(f"replay (reload on an Enforcer with a matching function): kept={c['kept']} offered={c['offered']} fail_at={c.get('fail_at')} -> {bad}")
+        if bad:
+            print(f"VIOLATION property={chk.prop} replay={chk.replay_file}")
+            sys.exit(1)
+        print("replay passes: after the reload every name holds exactly the roles the assignments in force give it")
         sys.exit(0)
     if "ops" not in c:
         print("replay file names a broken theorem/correspondence, not an input:", json.dumps(rec.get("broken"))[:800])
